@@ -10,6 +10,8 @@ from collections import OrderedDict
 NoneStr = "```(None)```"  # == cdd.shared.ast_utils.NoneStr (asserted in oracle.selfcheck)
 
 NAMES = ["alpha", "beta", "gamma", "delta", "epsilon"]
+# name sets whose members contain one another (an earlier name inside a later one, and the other way round): text-level matching of names
+ALT_NAMES = [["rate", "learning_rate", "rate_decay"], ["batch_size", "size", "s"]]
 
 # ---- type shapes -----------------------------------------------------------------------------------------
 TYPES = [
@@ -57,7 +59,7 @@ def defaults_for(t):
     elif t and t.startswith("Literal["):
         d += [("str", "x-y" if "x-y" in t else "a")]
     if b == "str":
-        d += [("strspace", "a b"), ("emptystr", ""), ("strdot", "a.b"), ("strquote", 'say "hi"')]
+        d += [("strspace", "a b"), ("emptystr", ""), ("strdot", "a.b"), ("strquote", 'say "hi"'), ("strapos_dot", "don't panic. retry"), ("strquote_dot", 'say "hi". bye')]
     if b == "bool":
         d += [("true", True), ("false", False)]
     if t and t.startswith("Optional["):
@@ -151,7 +153,7 @@ def mk_ir(params, ret=None, doc="Summary line.", name=None):
     }
 
 
-def ir_space(k1_alpha, kn_alpha, max_k, returns_1=RETURNS, returns_n=RETURNS[:2], headers=HEADERS[:1], names1=("alpha",)):
+def ir_space(k1_alpha, kn_alpha, max_k, returns_1=RETURNS, returns_n=RETURNS[:2], headers=HEADERS[:1], names1=("alpha",), alt_names=ALT_NAMES):
     """
     I(1) = every kind in k1_alpha x returns_1 x headers x names1 ; I(k), 2<=k<=max_k = all ordered k-tuples over kn_alpha x returns_n.
     Yields (case_key, ir) where case_key is a JSON-able description: {"kinds": [...], "ret": .., "hdr": .., "names": [...]}
@@ -165,6 +167,15 @@ def ir_space(k1_alpha, kn_alpha, max_k, returns_1=RETURNS, returns_n=RETURNS[:2]
                 yield (
                     dict(kinds=[list(kind) for kind, _ in tup], ret=rk, hdr="one", names=names),
                     mk_ir([(n, p) for n, (_, p) in zip(names, tup)], r, HEADERS[0][1]),
+                )
+    # the same tuples again under names that contain one another: all pairs, and all triples over the first three kinds
+    for alt in alt_names:
+        for k in range(2, min(max_k, 3) + 1):
+            for tup in itertools.product(kn_alpha if k == 2 else kn_alpha[:3], repeat=k):
+                rk, r = returns_n[0]
+                yield (
+                    dict(kinds=[list(kind) for kind, _ in tup], ret=rk, hdr="one", names=alt[:k]),
+                    mk_ir([(n, p) for n, (_, p) in zip(alt[:k], tup)], r, HEADERS[0][1]),
                 )
 
 
